@@ -92,3 +92,32 @@ Proof.
   - eexists. vm_compute. reflexivity.
   - eexists. split; [vm_compute; reflexivity|]. split; reflexivity.
 Qed.
+
+(** * C03's vocabulary: the validator's requirement set is exactly C03's [Required] *)
+Lemma rule_requires_Required c mt x : fm_wf mt -> (rule_requires c mt x <-> Required c mt (present mt) x).
+Proof.
+  intros W. split.
+  - intros [a Hin Hr Hid|g Hin Hr [Hx|Hx]|i ma g Hin Hna Hg Hx|i ma Hin Hrb].
+    + subst x. apply Rq_static; assumption.
+    + subst x. apply Rq_group; assumption.
+    + eapply Rq_group_requires; eassumption.
+    + eapply (Rq_present_group c mt (present mt) i g x); [split; assumption| |exact Hx].
+      eapply entry_present; eassumption.
+    + apply explicit_entries_In in Hin. destruct Hin as [Hin He].
+      eapply (Rq_requires c mt (present mt) i ma x); [apply fm_get_first; assumption|exact He|].
+      apply req_by_ReqBy. exact Hrb.
+  - intros [a Hin Hr|g Hin Hr|g y Hin Hr Hy|x' g y [Hna Hg] Hp Hy|root m y Hg Hm HR].
+    + eapply RRArg; [exact Hin|exact Hr|reflexivity].
+    + eapply RRGroup; [exact Hin|exact Hr|left; reflexivity].
+    + eapply RRGroup; [exact Hin|exact Hr|right; exact Hy].
+    + destruct (present_entry mt x' Hp) as [m Hm]. eapply RRPresentGroup; eassumption.
+    + eapply (RRPresentArg c mt y root m); [|apply req_by_ReqBy; exact HR].
+      apply explicit_entries_In. split; [apply fm_get_In; exact Hg|exact Hm].
+Qed.
+
+Theorem required_set_exact c mt required : fm_wf mt ->
+  gather_requires c mt (required_graph c) = Some required ->
+  forall x, In x required <-> Required c mt (present mt) x.
+Proof.
+  intros W Hg x. rewrite (requirement_set_exact c mt required Hg x). apply rule_requires_Required. exact W.
+Qed.
